@@ -447,8 +447,25 @@ func TestC18InferAndEquivalences(t *testing.T) {
 		}
 		switch class {
 		case "enum-adopts-definition", "array-of-enum", "map-of-enum":
-			def := "Enum8('x' = 5, 'y' = -7)"
+			// The definition the server announces: 2-4 members whose names may carry leading,
+			// trailing or inner blanks, be empty or non-ASCII (no quote, comma, '=' or backslash:
+			// the definition parser is documented for plain names only).
+			pool := []string{"x", "y", " a", "a", "b ", "x y", "", "ключ", "a.b", "-", "  ", " lead and trail "}
 			names := map[int64]string{5: "x", -7: "y"}
+			if rapid.Bool().Draw(rt, "generated-definition") {
+				perm := rapid.Permutation(pool).Draw(rt, "member-names")
+				names = map[int64]string{5: perm[0], -7: perm[1]}
+				for i, extra := 2, rapid.IntRange(0, 2).Draw(rt, "more-members"); i < 2+extra; i++ {
+					names[int64(10*i)] = perm[i]
+				}
+			}
+			var defParts []string
+			for _, raw := range []int64{5, -7, 20, 30} {
+				if nm, ok := names[raw]; ok {
+					defParts = append(defParts, fmt.Sprintf("'%s' = %d", nm, raw))
+				}
+			}
+			def := "Enum8(" + strings.Join(defParts, ", ") + ")"
 			et := ref.Fixed(def, 1)
 			target := new(proto.ColEnum)
 			if rapid.Bool().Draw(rt, "pre-inferred-with-other-definition") {
@@ -481,7 +498,7 @@ func TestC18InferAndEquivalences(t *testing.T) {
 				}
 				decode([]ref.Column{{Name: "e", T: ref.Array(et), Rows: vals}}, proto.Results{{Name: "e", Data: arr}})
 				for i, r := range raws {
-					if got := arr.Row(i); len(got) != 2 || got[0] != names[r] || got[1] != "x" {
+					if got := arr.Row(i); len(got) != 2 || got[0] != names[r] || got[1] != names[5] {
 						rt.Fatalf("[%s] row %d = %v", class, i, got)
 					}
 				}
